@@ -40,8 +40,16 @@ CLAIM = dict(
     "the only external contract is that np.savez / pickle return each stored value unchanged. (2) decide over tables "
     "regenerated from the running code / AST on every check: metadata() completeness and soundness w.r.t. the constructor "
     "keywords, imread_from_bytes kind rule, decode permutation = involution BGR<->RGB undoing OpticalImage.write, suffix "
-    "dispatch, read_correction resolves every class whose save writes class_name, loaded fields subset of saved fields. "
-    "Ties: constructor keyword provenance (which keyword reaches which attribute, per class) model vs real constructors; "
+    "dispatch, read_correction resolves every class whose save writes class_name, loaded fields subset of saved fields, the "
+    "keys the subclass constructors pop are exactly the flags the model forces (popped_keys_are_the_forced_ones). (3) "
+    "CORRECTIONS: save / load (incl. _init_from_config, no-argument constructor of the generic reader) of the five savable "
+    "corrections as functions on their state over abstract values: reload_equiv - the state correct_array depends on is the "
+    "same after save -> read_correction, for every state the class's own initialisation produces "
+    "(drift_init_establishes_inv); curvature_before_fix_loses_order (the interpolation order is part of that state; a "
+    "defect found with this model and fixed). Caches are memoisation and not part of the state. "
+    "Ties: correction field provenance (the model on symbolic values says which attribute each saved field comes from and "
+    "which field / default / derived value each attribute is rebuilt from; every pair is verified on a real object, its real "
+    "npz file and the reloaded object); constructor keyword provenance (which keyword reaches which attribute, per class) model vs real constructors; "
     "kind rule / permutation vs real byte strings. NOT modelled: np.savez / pickle value fidelity, cv2.imencode / imdecode / "
     "imwrite, PNG / TIFF codecs, skimage dtype conversion - the bit-identical round trips (images over the whole metadata "
     "space, 8/16-bit grey / single-channel / colour byte strings, optical write -> imread, the five savable corrections with "
@@ -142,6 +150,21 @@ def attr_provenance(cls, base_cls):
                 init=attrs(closure("__init__"), ast.Store))
 
 
+def popped_kwargs(cls):
+    """G2: keys the class's OWN constructor removes from kwargs (`kwargs.pop("k", ...)`) before delegating"""
+    if "__init__" not in vars(cls):
+        return []
+    tree = ast.parse(textwrap.dedent(inspect.getsource(cls.__init__)))
+    keys = []
+    for node in ast.walk(tree):
+        if (isinstance(node, ast.Call) and isinstance(node.func, ast.Attribute) and node.func.attr == "pop"
+                and isinstance(node.func.value, ast.Name) and node.func.value.id == "kwargs" and node.args
+                and isinstance(node.args[0], ast.Constant) and isinstance(node.args[0].value, str)
+                and node.args[0].value not in keys):
+            keys.append(node.args[0].value)
+    return keys
+
+
 def tiny(d, name):
     if name == "Image":
         return d.Image(np.zeros((2, 3, 2)), dimensions=[1.0, 2.0], scalar=False)
@@ -180,6 +203,7 @@ def tabulate(d, tmp):
     t = {}
     t["metaKeys"] = {n: list(tiny(d, n).metadata().keys()) for n in CLS}
     t["consumed"] = {n: consumed_kwargs(getattr(d, n)) for n in CLS}
+    t["popped"] = {n: popped_kwargs(getattr(d, n)) for n in CLS}
     # class rebuilt by the npz reader
     t["npzClass"] = {}
     for n in CLS:
@@ -258,7 +282,7 @@ def lkey(k, others):
 def emit(t):
     others = {}
     L = ["import DarsiaModel.Persist", "namespace Darsia.Gen", "open Darsia Darsia.Persist", ""]
-    for tab in ("metaKeys", "consumed"):
+    for tab in ("metaKeys", "consumed", "popped"):
         L.append(f"def {tab} : Cls → List Key")
         for n, c in CLS.items():
             L.append(f"  | .{c} => " + llist(t[tab][n], lambda k: lkey(k, others)))
@@ -569,7 +593,10 @@ def correction_cases(ctx, d, photo):
         ccfg["stretch"] = {"horizontal_stretch": rnd.choice([1e-6, -1e-6]), "horizontal_center_offset": 0,
                            "vertical_stretch": rnd.choice([0.0, 2e-6]), "vertical_center_offset": rnd.choice([0, 4])}
     ca = photo[200:200 + hh, 300:300 + ww].copy()
-    out.append(("CurvatureCorrection", lambda: d.CurvatureCorrection(config=ccfg), ca, dict(config=ccfg)))
+    ckw = {}
+    if rnd.random() < 0.5:
+        ckw["interpolation_order"] = rnd.choice([0, 1, 2, 3])  # a constructor keyword that shapes the output
+    out.append(("CurvatureCorrection", lambda: d.CurvatureCorrection(config=ccfg, **ckw), ca, dict(config=ccfg, kwargs=ckw)))
     # IlluminationCorrection
     small = photo[:300, :300].copy()
     cs = rnd.choice(["rgb", "rgb-scalar", "lab-scalar", "hsl-scalar", "lab", "hsl"])
@@ -741,6 +768,112 @@ def constructor_provenance(ctx, d):
     ctx.correspond("constructor-keyword-provenance", lines, impl)
 
 
+CONSTS = {"const:True": True, "const:False": False, "const:0": 0.0, "const:1": 1, "const:affine": "affine", "const:darsia": "darsia"}
+
+
+def correction_field_tie(ctx, d, tmp):
+    """field-level tie of the save / load model of the five corrections: the model, evaluated on symbolic values, says
+    which attribute each saved field comes from and which saved field (or default / derived value) each output-relevant
+    attribute is rebuilt from; every such pair is verified on a real object, its real npz file and the real reloaded
+    object. A pair that does not hold is printed as `?`."""
+    import cv2
+
+    photo_path = Path(inspect.getfile(d)).resolve().parents[2] / "examples" / "images" / "baseline.jpg"
+    photo = cv2.cvtColor(cv2.imread(str(photo_path)), cv2.COLOR_BGR2RGB) if photo_path.exists() else \
+        cv2.GaussianBlur(np.random.RandomState(0).randint(0, 255, size=(900, 1900, 3)).astype(np.uint8), (0, 0), 3)
+    ATTR = {
+        "TypeCorrection": {"dataType": lambda c: c.data_type},
+        "DriftCorrection": {"base": lambda c: c.base, "active": lambda c: c.active, "padding": lambda c: c.relative_padding, "roi": lambda c: c.roi},
+        "CurvatureCorrection": {"config": lambda c: c.config, "interpolationOrder": lambda c: c.interpolation_order},
+        "IlluminationCorrection": {"colorspace": lambda c: c.colorspace, "localScaling": lambda c: c.local_scaling},
+        "ColorCorrection": {"swatches": lambda c: c.colorchecker.swatches_rgb, "active": lambda c: c.active,
+                            "whitebalancing": lambda c: c.whitebalancing, "colorbalancing": lambda c: c.colorbalancing,
+                            "balancing": lambda c: c.balancing, "clip": lambda c: c.clip, "roi": lambda c: c.roi},
+    }
+
+    def file_fields(name, data):
+        cfg = data["config"].item() if "config" in data else {}
+        if name == "TypeCorrection":
+            return {"data_type": data["data_type"].item()}
+        if name == "DriftCorrection":
+            return {"base": data["base"], "cfgActive": cfg.get("active"), "cfgPadding": cfg.get("padding"), "cfgRoi": cfg.get("roi")}
+        if name == "CurvatureCorrection":
+            return {"config": cfg, "interpolation_order": int(data["interpolation_order"]) if "interpolation_order" in data else None}
+        if name == "IlluminationCorrection":
+            return {"cfgColorspace": cfg.get("colorspace"), "cfgLocalScaling": cfg.get("local_scaling")}
+        return dict({"base": data["base"]}, **{"config." + k: v for k, v in cfg.items()})
+
+    def attr_val(name, c, tag):
+        key = tag[len("attr:"):]
+        if key.startswith("config."):
+            return c.config.get(key[len("config."):])
+        return ATTR[name][key](c)
+
+    lines, cases = [], []
+    for n in range(ctx.pick(4, 30)):
+        for name, mk, arr, desc in correction_cases(ctx, d, photo):
+            if name == "DriftCorrection":
+                req = "corr DriftCorrection " + ("roi" if "roi" in desc["config"] else "noroi")
+            elif name == "ColorCorrection":
+                req = "corr ColorCorrection " + " ".join(k for k in ("active", "whitebalancing", "colorbalancing", "balancing", "clip") if k in desc["config"])
+            else:
+                req = "corr " + name
+            lines.append(req.strip())
+            cases.append((name, mk, desc))
+    model = ctx.model(lines)
+    impl = []
+    for line, out, (name, mk, desc) in zip(lines, model, cases):
+        c = quiet(mk)
+        p = tmp / f"tie_{name}.npz"
+        c2 = c if isinstance(c, Raised) else quiet(lambda: (c.save(p), d.read_correction(p))[1])
+        if isinstance(c, Raised) or isinstance(c2, Raised) or "|" not in out:
+            impl.append(repr(c2) if isinstance(c2, Raised) else repr(c))
+            continue
+        data = np.load(p, allow_pickle=True)
+        ff = file_fields(name, data)
+        save_part, load_part = out.split("|")
+        res = []
+        for pair in save_part.replace("save:", "").split():
+            field, tag = pair.split("=", 1)
+            fv = ff.get(field)
+            ok = (fv is None) if tag == "none" else (tag.startswith("attr:") and deep_equal_loose(fv, attr_val(name, c, tag)))
+            res.append(f"{field}={tag if ok else '?'}")
+        res2 = []
+        for pair in load_part.replace("load:", "").split():
+            attr, tag = pair.split("=", 1)
+            av = ATTR[name][attr](c2)
+            if tag == "none":
+                ok = av is None
+            elif tag in CONSTS:
+                ok = deep_equal_loose(av, CONSTS[tag])
+            elif tag.startswith("makeVoxel("):
+                ok = deep_equal_loose(np.asarray(av), np.asarray(d.make_voxel(ff.get(tag[len("makeVoxel(file:"):-1]))))
+            else:
+                ok = tag.startswith("file:") and deep_equal_loose(av, ff.get(tag[len("file:"):]))
+            res2.append(f"{attr}={tag if ok else '?'}")
+        impl.append("save: " + " ".join(res) + " | load: " + " ".join(res2))
+    ctx.correspond("correction-field-provenance", lines, impl)
+
+
+def deep_equal_loose(x, y):
+    """value equality across containers / numpy scalars / images"""
+    if hasattr(x, "img") and hasattr(y, "img"):
+        return deep_equal_loose(x.img, y.img)
+    if isinstance(x, np.ndarray) or isinstance(y, np.ndarray):
+        try:
+            return np.shape(x) == np.shape(y) and bool(np.array_equal(np.asarray(x), np.asarray(y)))
+        except Exception:  # noqa: BLE001
+            return False
+    if isinstance(x, dict) and isinstance(y, dict):
+        return set(x) == set(y) and all(deep_equal_loose(x[k], y[k]) for k in x)
+    if isinstance(x, (list, tuple)) and isinstance(y, (list, tuple)):
+        return len(x) == len(y) and all(deep_equal_loose(a, b) for a, b in zip(x, y))
+    try:
+        return bool(x == y)
+    except Exception:  # noqa: BLE001
+        return False
+
+
 def replay(data):
     print("property C18 replay")
     for k in ("signature", "what"):
@@ -779,6 +912,7 @@ def run(ctx):
         oracle_npz(ctx, d, tmp)
         oracle_write(ctx, d, tmp)
         oracle_corrections(ctx, d, tmp)
+        correction_field_tie(ctx, d, tmp)
     finally:
         shutil.rmtree(tmp, ignore_errors=True)
     ctx.cov["explanation"] = CLAIM["text"]
